@@ -47,6 +47,8 @@ out["confirmed"] = bool(ok)
 results = {}
 if ok and props:
     sh(f"git -C /repo apply {dst}/patch.diff")
+    evbak = tempfile.mkdtemp(prefix="evbak_", dir=f"{V}/.scratch")
+    shutil.copytree(f"{V}/evidence", f"{evbak}/evidence")      # evidence files must only ever come from the unchanged tree
     try:
         for p in props:
             r = sh(f"{V}/check {p}")
@@ -54,6 +56,9 @@ if ok and props:
             results[p] = {"exit": r.returncode, "lines": [l[:300] for l in lines[:8]]}
     finally:
         sh("git -C /repo checkout -- .")
+        shutil.rmtree(f"{V}/evidence")
+        shutil.copytree(f"{evbak}/evidence", f"{V}/evidence")
+        shutil.rmtree(evbak)
 out["checks"] = results
 meta = json.load(open(f"{dst}/meta.json"))
 meta["confirmation"] = {k: v for k, v in out.items() if k != "checks"}
